@@ -9,7 +9,7 @@ SCHED = os.path.join(ROOT, "tools", "sched")
 CACHE = os.path.join(ROOT, ".cache")
 M = 7          # events per thread (tbmc.rs)
 TMAX = 4
-OPNAMES = {0: "nextid", 1: "chunk", 2: "buf", 3: "skip", 4: "len", 5: "next"}
+OPNAMES = {0: "nextid", 1: "chunk", 2: "buf", 3: "skip", 4: "len", 5: "next"}  # 6, 7 (for_each) are not replayable by tools/sched
 BUFN = 2
 
 
